@@ -907,7 +907,8 @@ class Interp(object):
             return e, trip, len(it.items) > 0
         if it.kind == K_ARRAY:
             sh = it.shape[1:] if it.shape else None
-            return it.replace(shape=sh, kind=K_SCALAR if sh == () else K_ARRAY, const=_NOCONST, sym=None,
+            return it.replace(shape=sh, kind=K_SCALAR if sh == () else K_ARRAY, const=_NOCONST, sym=None, parts=None,
+                              tags=it.tags | frozenset(["loopvar"]),         # the element varies with the iteration, like x[i] does
                               origin=it.origin if sh not in ((), None) else frozenset(["lit"])), trip, False
         if it.elem is not None:
             return it.elem, trip, False
